@@ -282,11 +282,20 @@ class HttpProxyPlugin(HttpProtocolHandlerPlugin):
             # tls interception is enabled
             if raw is not None:
                 if not self.request.is_https_tunnel or self._tls_intercept_enabled:
-                    if self.response.is_complete:
-                        self.handle_pipeline_response(raw)
-                    else:
-                        self.response.parse(raw)
-                        self.emit_response_events(len(raw))
+                    # Response is parsed only for book keeping.  Upstream bytes
+                    # are relayed as-is, even when we fail to make sense of them,
+                    # e.g. body of a response delimited by connection close.
+                    try:
+                        if self.response.is_complete:
+                            self.handle_pipeline_response(raw)
+                        else:
+                            self.response.parse(raw)
+                            self.emit_response_events(len(raw))
+                    except Exception as e:
+                        self.pipeline_response = None
+                        logger.warning(
+                            'Unable to parse upstream response: %r' % e,
+                        )
                 else:
                     self.response.total_size += len(raw)
                 # queue raw data for client
